@@ -17,8 +17,9 @@ def polar_decompose(matrix, left=True):
     U, S, Vh = np.linalg.svd(matrix)
     if left:
         return U @ Vh, U @ (np.diag(S) @ U.transpose())
-    U_matrix = Vh.transpose() @ (np.diag(S) @ Vh)
-    return matrix @ np.linalg.inv(U_matrix), U_matrix
+    # M = U S Vh = (U Vh)(Vh^T S Vh): the orthogonal factor is the same as in the left variant.
+    # (Previously `matrix @ np.linalg.inv(U_matrix)`, which fails for singular matrices.)
+    return U @ Vh, Vh.transpose() @ (np.diag(S) @ Vh)
 
 
 @nb.njit(fastmath=True)
